@@ -116,3 +116,18 @@ Theorem stale_cache_pays_twice :
   let cfg' := {| dc_fee := 10; dc_min := None; dc_refresh_on_settle := true |} in
   dpaid cfg' d0 [DDeposit 1000000; DEarn 10000; DWithdraw; DWithdraw; DMine; DMine] = [0; 0; 1009990; 0; 0; 0].
 Proof. vm_compute. split; reflexivity. Qed.
+
+(* what any request reads of a wallet's deposit is what the contract holds (its pending view):
+   the cache never answers anything else, in any reachable state — no reader sees a settlement
+   that has not been submitted, nor misses one that has *)
+Theorem reads_are_coherent cfg ops v c :
+  dc_refresh_on_settle cfg = true -> 0 <= dc_fee cfg ->
+  read (drun cfg d0 ops) = (Some v, c) -> v = eff (drun cfg d0 ops).
+Proof.
+  intros Hpol Hfee.
+  assert (H : forall s, DInv (dc_fee cfg) s -> DInv (dc_fee cfg) (drun cfg s ops)).
+  { induction ops as [|o r IH]; intros s Hs; [exact Hs|]. cbn. apply IH. now apply DInv_step. }
+  destruct (H d0 (DInv_d0 _)) as [Hc _ _ _]. unfold read.
+  destruct (d_cache (drun cfg d0 ops)) as [w|]; [intros [= <- _]; exact Hc|].
+  destruct (eff_locked (drun cfg d0 ops)); [discriminate|]. now intros [= <- _].
+Qed.
